@@ -554,6 +554,10 @@ fn simplify_logic_nary(exps: &[Exp], is_and: bool) -> Exp {
 /// or a negation of a leaf, which are unambiguous on their own.
 fn logic_operand_to_string(exp: &Exp) -> String {
     match exp {
+        //logic constants are 0/1 numbers in the model, the language spells
+        //them false/true (a bare 0 or 1 is an integer for the type checker)
+        Exp::Number(value) if *value == 0.0 => "false".to_string(),
+        Exp::Number(value) if *value == 1.0 => "true".to_string(),
         exp if exp.is_leaf() => exp.to_string(),
         Exp::Not(inner) if inner.is_leaf() => exp.to_string(),
         exp => format!("({})", exp),
@@ -577,7 +581,9 @@ impl fmt::Display for Exp {
                 .collect::<Vec<_>>()
                 .join(" or "),
             Exp::Not(exp) => {
-                if exp.is_leaf() {
+                if matches!(**exp, Exp::Number(_)) {
+                    format!("not {}", logic_operand_to_string(exp))
+                } else if exp.is_leaf() {
                     format!("not {}", exp)
                 } else {
                     format!("not ({})", exp)
